@@ -5,8 +5,8 @@ L1  Chains.tla: the reference builder (start / extend along a link) is model-che
     bookkeeping) is explored over abstract distance ranks - exhaustively for small scopes, over the neighbourhood of
     the Appendix-C configuration, and by random simulation - and its final tables are judged by ValidTrace: a search for
     design-level counter-examples.
-L2  the instances TLC emits (every counter-example of the model and a sample of conforming ones) are realised as
-    point sets (mbt/chainsgeo.py, verified by brute force), run through the real trace_chains and judged by
+L2  the instances TLC emits (every counter-example of the current model, the counter-examples of the earlier,
+    defective designs kept as negative controls, and a sample of conforming instances) are realised as point sets (mbt/chainsgeo.py, verified by brute force), run through the real trace_chains and judged by
     ChainsTrace.tla.  Whether the real table equals the model's table is recorded as information only.
 L3  random paired entry / exit lists (2..60 particles, 1..3 tomograms, uniform / clustered / shuffled polysome-like
     walks): the driver logs the brute-force link relation with distances and the returned table; ChainsTrace.tla
@@ -121,11 +121,23 @@ def cause_of(how):
 
 
 def canon(tab):
-    """(particle, object, order) rows -> the partition into chains with order numbers (object labels are arbitrary)."""
+    """(particle, object, order[, recorded rank]) rows -> the partition into chains with order numbers (and recorded
+    ranks); object labels are arbitrary."""
     groups = {}
-    for p, o, k in tab:
-        groups.setdefault(o, []).append((k, p))
+    for row in tab:
+        groups.setdefault(row[1], []).append((row[2], row[0]) + tuple(row[3:]))
     return sorted(tuple(sorted(g)) for g in groups.values())
+
+
+def rec_rank(rec, dists):
+    """The rank (1-based position in the ascending list of linked distances) a recorded value x1e5 stands for;
+    0 for a recorded 0, -1 when it is none of the linked distances."""
+    if rec == 0:
+        return 0
+    for k, d in enumerate(dists):
+        if abs(rec - d * SCALE) <= 2 + d * SCALE * 1e-6:
+            return k + 1
+    return -1
 
 
 def tomo_instances(case):
@@ -145,7 +157,7 @@ def tomo_instances(case):
         links.sort()
         tie = any(links[k + 1][0] - links[k][0] < 1e-9 * links[k + 1][0] for k in range(len(links) - 1))
         inst = None if tie else {"n": len(idx), "links": [[a, b] for _, a, b in links]}
-        out.append((t, [int(case["sid"][k]) for k in idx], inst))
+        out.append((t, [int(case["sid"][k]) for k in idx], inst, [d for d, _, _ in links]))
     return out
 
 
@@ -159,7 +171,7 @@ def classify(ctx, pending):
     for clause, detail, case, kind, rows in pending:
         ti = tomo_instances(case)
         per_case.append(ti)
-        for _, _, inst in ti:
+        for _, _, inst, _ in ti:
             if inst is not None:
                 insts[core.stable_hash([inst["n"], inst["links"]])] = inst
     model = {}
@@ -176,7 +188,7 @@ def classify(ctx, pending):
                 model[core.stable_hash([r["n"], r["links"]])] = r
     for (clause, detail, case, kind, rows), ti in zip(pending, per_case):
         causes, agree = [], True
-        for t, sids, inst in ti:
+        for t, sids, inst, dists in ti:
             if inst is None:
                 agree = None
                 break
@@ -188,7 +200,7 @@ def classify(ctx, pending):
                 agree = agree and m["err"] != ""
                 continue
             local = {sid: k + 1 for k, sid in enumerate(sids)}
-            real = [(local.get(r[0], -1), r[2], r[3]) for r in rows if r[1] == t]
+            real = [(local.get(r[0], -1), r[2], r[3], rec_rank(r[4], dists)) for r in rows if r[1] == t]
             agree = agree and m["err"] == "" and canon(real) == canon([tuple(x) for x in m["table"]])
         if agree is None:
             cause = "unclassified:equal_distances"
@@ -323,9 +335,11 @@ def gen_case(rng, idx):
 
 
 # ---- L1 / L2: the algorithm model -----------------------------------------------------------------------------------
-def cfg_chains(spec, npart, maxlinks, family, extra):
+def cfg_chains(spec, npart, maxlinks, family, extra, variant="Current"):
+    """variant: "Current" (the algorithm as it is in the tree: both repairs of 1437bd7 / 00e911b), or one of the
+    negative controls "NoRepair", "OnlyTailcutOrder", "OnlyFreshHeadId" (the earlier, defective designs)."""
     lines = ["SPECIFICATION %s" % spec, "CONSTANTS", " NPart = %d" % npart, " MaxLinks = %d" % maxlinks,
-             ' Family = "%s"' % family, " Instances <- FamilyInstances"] + list(extra)
+             ' Family = "%s"' % family, " Instances <- FamilyInstances", " Repair <- %s" % variant] + list(extra)
     return "\n".join(lines) + "\n"
 
 
@@ -372,21 +386,21 @@ def run(ctx):
     def want(x):
         return not only or x in only
 
-    bad, sample = [], []
+    bad, sample, controls = [], [], []
     if want("l1"):
         # reference builder: every reachable table is a valid trace (all link sets / orders of the scope)
         ctx.tlc("MC_Chains", cfg_chains("RefSpec", 3, 4, "all", ["INVARIANT C19_RefValid"]), name="ref_3",
                 workers=workers)
         ctx.exhaustive["L1_reference_builder_3_particles_4_links"] = True
-        # algorithm model, exhaustive small scopes: all link sets and distance orders
+        # algorithm model (current design), exhaustive small scopes: all link sets and distance orders
         scopes = ctx.pick([(3, 6), (4, 4)], [(3, 6), (4, 6), (5, 4)])
         for n, k in scopes:
             res = ctx.tlc("MC_Chains", cfg_chains("BuildSpec", n, k, "none", ["CONSTRAINT EmitAlgoBad"]),
                           name="algo_%d_%d" % (n, k), workers=workers)
             bad += res.tagged.get("ALGO", [])
             ctx.exhaustive["L1_algorithm_%d_particles_%d_links" % (n, k)] = True
-        # the neighbourhoods of the two six-particle counter-examples (found by TLC's simulation of this model; the first
-        # is the Appendix-C mechanism): every link subset / distance order over their candidate pairs
+        # the neighbourhoods of the two six-particle configurations on which the earlier designs fail (found by TLC's
+        # simulation of this model): every link subset / distance order over their candidate pairs
         for fam, k in (("skeleton", ctx.pick(5, 7)), ("skeleton2", 6)):
             res = ctx.tlc("MC_Chains", cfg_chains("AlgoSpec", 6, k, fam, ["CONSTRAINT EmitAlgo"]),
                           name="algo_" + fam, workers=1)
@@ -394,6 +408,20 @@ def run(ctx):
             bad += [r for r in recs if r["clause"] != "none"]
             sample += [r for r in recs if r["clause"] == "none" and r["links"]]
             ctx.exhaustive["L1_algorithm_" + fam] = True
+        # negative controls: the earlier designs must still be found violating (the clauses are not vacuous); their
+        # counter-examples are the sharpest inputs for the code, so they are replayed too (L2)
+        ctrl = [("NoRepair", "skeleton", 5, "C19_ConsecutiveLinked"), ("OnlyTailcutOrder", "skeleton2", 6, "C19_OrdersConsecutive")]
+        if not ctx.quick:
+            ctrl.append(("OnlyFreshHeadId", "skeleton", 7, "C19_ConsecutiveLinked"))
+        for variant, fam, k, clause in ctrl:
+            res = ctx.tlc("MC_Chains", cfg_chains("AlgoSpec", 6, k, fam, ["CONSTRAINT EmitAlgoBad"], variant=variant),
+                          name="control_%s_%s" % (variant, fam), workers=1)
+            recs = dedupe(res.tagged.get("ALGO", []))
+            if not any(r["clause"] == clause for r in recs):
+                raise core.MachineryError("negative control %s on %s: TLC found no run violating %s - the algorithm "
+                                          "model or the predicate lost its teeth" % (variant, fam, clause))
+            controls += recs
+            ctx.extra["control_%s_counterexamples" % variant] = len(recs)
         if not ctx.quick:
             # random simulation of the model: six particles with six links, seven with seven
             nsim = int(os.environ.get("VERIF_C19_SIM", "60000"))
@@ -401,30 +429,45 @@ def run(ctx):
                 res = ctx.tlc("MC_Chains", cfg_chains("SimSpec", n, n, "none", ["CONSTRAINT EmitAlgoBad"]),
                               name="algo_sim%d" % n, workers=workers, simulate=nsim, depth=2 * n + 4, seed=ctx.seed + n)
                 bad += res.tagged.get("ALGO", [])
+            # ... and of the unrepaired design, as a source of hard inputs
+            res = ctx.tlc("MC_Chains", cfg_chains("SimSpec", 7, 7, "none", ["CONSTRAINT EmitAlgoBad"], variant="NoRepair"),
+                          name="control_sim7", workers=workers, simulate=nsim, depth=18, seed=ctx.seed + 77)
+            controls += res.tagged.get("ALGO", [])
         bad = dedupe(bad)
+        controls = dedupe(controls)
         ctx.extra["model_counterexamples"] = len(bad)
         ctx.extra["model_counterexample_classes"] = sorted({"%s/%s" % (r["clause"], cause_of(r["how"])) for r in bad})
-    if want("l2") and (bad or sample):
+    if want("l2") and (bad or sample or controls):
         rng = random.Random(ctx.seed * 7919 + 19)
         chosen = sorted(sample, key=lambda r: core.stable_hash([ctx.seed, r["links"]]))[:ctx.pick(40, 500)]
+        hard = controls[:ctx.pick(25, 200)]
         todo = bad[:ctx.pick(25, 150)] + chosen
         cases, recs = [], []
-        for i, r in enumerate(todo):
+        for i, r in enumerate(todo + hard):
             c = instance_case(ctx, r, rng, 100000 + i)
             if c is not None:
                 cases.append(c)
-                recs.append(r)
-        agree = 0
+                recs.append(r if i < len(todo) else None)
+        agree = nmodel = 0
         kept, tables = run_cases(ctx, cases)
         by_id = {c["id"]: r for c, r in zip(cases, recs)}
         for c, rows in zip(kept, tables):
-            model = sorted((p, o, k) for p, o, k in by_id[c["id"]]["table"])
+            if by_id[c["id"]] is None:
+                continue                                        # a control instance: its table is the old design's
+            nmodel += 1
             real = canon([(r[0], r[2], r[3]) for r in rows])
-            agree += int(real == canon(model))
+            agree += int(real == canon([tuple(x[:3]) for x in by_id[c["id"]]["table"]]))
         ctx.extra["model_instances_replayed"] = len(kept)
-        ctx.extra["model_agreement"] = "%d of %d real tables equal the model's table" % (agree, len(kept))
+        ctx.extra["model_agreement"] = "%d of %d real tables equal the current model's table" % (agree, nmodel)
+    if want("reg"):
+        # regression replays: the two committed configurations on which the tree failed before 1437bd7 / 00e911b
+        reg = []
+        for name in ("c19_appendixC.json", "c19_doublejoin.json"):
+            with open(os.path.join(core.CASES, name)) as fh:
+                reg.append(json.load(fh)["case"])
+        run_cases(ctx, reg)
     if want("l3"):
-        total = ctx.pick(100, 2500)
+        total = ctx.pick(100, 2000)
         batch = 250
         done = 0
         while done < total:
